@@ -21,6 +21,7 @@ import Mathlib.Algebra.Order.Field.Rat
 import Mathlib.Tactic.NormNum
 import LnnVerif.Lemmas.PendLemmas
 import LnnVerif.Lemmas.FolAmount
+import LnnVerif.Lemmas.FolRestrict
 
 set_option linter.unusedSectionVars false
 
@@ -236,5 +237,20 @@ theorem C13_fol_pass_zero_iff (kb : FKB ι α) (hw : FolAmount.WorldsInUnit kb) 
   runFCalls_amount_zero_iff kb hw cs s hs
 
 end fol
+
+/-! ### grounding-restricted node-level calls report 0 exactly when no read changed -/
+
+section restricted
+
+variable {ι : Type} [DecidableEq ι] {α : Type} [Field α] [LinearOrder α] [IsStrictOrderedRing α]
+
+theorem C13_fol_restricted (kb : FKB ι α) (hw : FolAmount.WorldsInUnit kb) (i : ι) (idx : Option Nat)
+    (restrict : Option (List Gr)) (p : PState ι α) (hs : FolAmount.SInUnit p.st) :
+    ((pUpR kb i restrict p).2 = 0 ↔ FolAmount.SameReads kb p.st (pUpR kb i restrict p).1.st) ∧
+    ((pDownR kb i idx restrict p).2 = 0 ↔ FolAmount.SameReads kb p.st (pDownR kb i idx restrict p).1.st) :=
+  ⟨FolRestrict.pUpR_amount_zero_iff kb hw i restrict p hs,
+   FolRestrict.pDownR_amount_zero_iff kb hw i idx restrict p hs⟩
+
+end restricted
 
 end LNN
